@@ -267,4 +267,301 @@ theorem feed_close (c : Cfg) (w : Bytes) (E P : AFrame) (r : List AFrame)
   have := feeds_append (feeds_one e1) (feeds_append (feeds_one e2) (feeds_append e3 (feeds_one e4)))
   simpa using this
 
+
+/-! ## what the decoder rebuilds from an encoded tree -/
+
+mutual
+/-- the tree the decoder rebuilds from the encoding of `t`: children are absorbed left to right with a
+    pending text buffer, exactly as the `FREE` state does -/
+def normOp : Tree → Tree
+  | .text s => .text s
+  | .elem tag attrs cs => .elem tag attrs (flushK (absorbL cs [] []).2 (absorbL cs [] []).1)
+/-- pending text `w`, children so far `ks`, after reading the encodings of the trees -/
+def absorbL : List Tree → Bytes → List Tree → Bytes × List Tree
+  | [], w, ks => (w, ks)
+  | t :: r, w, ks => match t with
+    | .text s => absorbL r (w ++ s) ks
+    | .elem .. => absorbL r [] (flushK ks w ++ [normOp t])
+end
+
+def AttrsOK (a : List (Bytes × Bytes)) : Prop :=
+  (∀ kv ∈ a, NameOK kv.1 ∧ NulFree kv.2) ∧ a.Pairwise (fun x y => bytesLt x.1 y.1 = true)
+
+mutual
+def ValidTree : Tree → Prop
+  | .text s => NulFree s
+  | .elem tag attrs cs => NameOK tag ∧ AttrsOK attrs ∧ ValidList cs
+def ValidList : List Tree → Prop
+  | [] => True
+  | t :: r => ValidTree t ∧ ValidList r
+end
+
+theorem bytesLt_asymm : ∀ (a b : Bytes), bytesLt a b = true → bytesLt b a = false
+  | [], [], h => by simp [bytesLt] at h
+  | [], _ :: _, _ => by simp [bytesLt]
+  | _ :: _, [], h => by simp [bytesLt] at h
+  | x :: s, y :: t, h => by
+    simp only [bytesLt] at h ⊢
+    by_cases h1 : x.toNat < y.toNat
+    · have h2 : ¬ y.toNat < x.toNat := by omega
+      simp [h1, h2]
+    · by_cases h2 : y.toNat < x.toNat
+      · simp [h1, h2] at h
+      · simp only [h1, h2, if_false] at h ⊢
+        exact bytesLt_asymm s t h
+
+theorem bytesLt_irrefl (a : Bytes) : bytesLt a a = false := by
+  cases h : bytesLt a a with
+  | false => rfl
+  | true => have := bytesLt_asymm a a h; rw [h] at this; exact this
+
+theorem bytesLt_ne (a b : Bytes) (h : bytesLt a b = true) : b ≠ a := by
+  intro e; subst e; rw [bytesLt_irrefl] at h; exact absurd h (by decide)
+
+theorem mapSet_append (k v : Bytes) (acc : List (Bytes × Bytes)) (h : ∀ a ∈ acc, bytesLt a.1 k = true) :
+    mapSet k v acc = acc ++ [(k, v)] := by
+  induction acc with
+  | nil => rfl
+  | cons a r ih =>
+    obtain ⟨k', v'⟩ := a
+    have h1 : bytesLt k' k = true := h (k', v') (by simp)
+    have h2 : k ≠ k' := bytesLt_ne k' k h1
+    have h3 : bytesLt k k' = false := bytesLt_asymm k' k h1
+    simp only [mapSet, h2, if_false, h3, Bool.false_eq_true, List.cons_append]
+    rw [ih (fun a ha => h a (by simp [ha]))]
+
+theorem setAll_sorted (attrs acc : List (Bytes × Bytes))
+    (hs : attrs.Pairwise (fun x y => bytesLt x.1 y.1 = true))
+    (ha : ∀ a ∈ acc, ∀ x ∈ attrs, bytesLt a.1 x.1 = true) : setAll acc attrs = acc ++ attrs := by
+  induction attrs generalizing acc with
+  | nil => simp [setAll]
+  | cons kv rest ih =>
+    obtain ⟨k, v⟩ := kv
+    rw [List.pairwise_cons] at hs
+    have e : setAll acc ((k, v) :: rest) = setAll (mapSet k v acc) rest := rfl
+    rw [e, mapSet_append k v acc (fun a h => ha a h (k, v) (by simp))]
+    rw [ih (acc ++ [(k, v)]) hs.2]
+    · simp
+    · intro a h x hx
+      simp only [List.mem_append, List.mem_singleton] at h
+      rcases h with h | rfl
+      · exact ha a h x (by simp [hx])
+      · exact hs.1 x hx
+
+theorem setAll_nil_sorted (attrs : List (Bytes × Bytes)) (h : AttrsOK attrs) : setAll [] attrs = attrs := by
+  simpa using setAll_sorted attrs [] h.2 (by simp)
+
+theorem nameOK_ne_nil (tag : Bytes) (h : NameOK tag) : tag.isEmpty = false := by
+  cases tag with
+  | nil => exact h.elim
+  | cons => rfl
+
+mutual
+/-- the decoder on the compact encoding of one tree, from `FREE` with pending text `w` -/
+theorem feed_tree_c (lvl : Nat) : ∀ (t : Tree), ValidTree t → ∀ (c : Cfg) (w : Bytes) (F : AFrame) (r : List AFrame),
+    Sh c .free .free w (F :: r) →
+    ∃ c', feed true c (encodeAt false lvl t) = .cont c' ∧
+      Sh c' .free .free (absorbL [t] w F.2.2).1 ((F.1, F.2.1, (absorbL [t] w F.2.2).2) :: r)
+  | .text s, ht, c, w, F, r, h => by
+    obtain ⟨c1, e1, u1⟩ := feed_escape true s c (Or.inl ⟨h.st, h.last⟩) ht
+    have s1 := h.of_upd u1
+    rw [h.b] at s1
+    exact ⟨c1, by simpa [encodeAt] using e1, by simpa [absorbL] using s1⟩
+  | .elem tag attrs cs, ht, c, w, F, r, h => by
+    obtain ⟨htag, hattrs, hcs⟩ := ht
+    have hne := nameOK_ne_nil tag htag
+    have hset := setAll_nil_sorted attrs hattrs
+    cases cs with
+    | nil =>
+      obtain ⟨c1, e1, s1⟩ := feed_open_close true c w tag attrs F r h htag hattrs.1
+      refine ⟨c1, ?_, ?_⟩
+      · simpa [encodeAt, hne] using e1
+      · simpa [absorbL, normOp, attachA, flushF, hset, flushK] using s1
+    | cons c0 rest =>
+      obtain ⟨c1, e1, s1⟩ := feed_open_gt true c w tag attrs F r h htag hattrs.1
+      obtain ⟨c2, e2, s2⟩ := feed_list_c (lvl + 1) (c0 :: rest) hcs c1 [] (tag, setAll [] attrs, []) (flushF F w :: r) s1
+      obtain ⟨c3, e3, s3⟩ := feed_close c2 _ _ _ _ s2 htag
+      refine ⟨c3, ?_, ?_⟩
+      · have := feeds_append e1 (feeds_append e2 e3)
+        simpa [encodeAt, hne] using this
+      · simpa [absorbL, normOp, attachA, flushF, hset] using s3
+theorem feed_list_c (lvl : Nat) : ∀ (ts : List Tree), ValidList ts → ∀ (c : Cfg) (w : Bytes) (F : AFrame) (r : List AFrame),
+    Sh c .free .free w (F :: r) →
+    ∃ c', feed true c (encodeList false lvl ts) = .cont c' ∧
+      Sh c' .free .free (absorbL ts w F.2.2).1 ((F.1, F.2.1, (absorbL ts w F.2.2).2) :: r)
+  | [], _, c, w, F, r, h => ⟨c, rfl, by simpa [absorbL] using h⟩
+  | t :: ts, ht, c, w, F, r, h => by
+    obtain ⟨c1, e1, s1⟩ := feed_tree_c lvl t ht.1 c w F r h
+    obtain ⟨c2, e2, s2⟩ := feed_list_c lvl ts ht.2 c1 _ (F.1, F.2.1, (absorbL [t] w F.2.2).2) r s1
+    refine ⟨c2, by simpa [encodeList] using feeds_append e1 e2, ?_⟩
+    cases t with
+    | text s => simpa [absorbL] using s2
+    | elem tag attrs cs => simpa [absorbL] using s2
+end
+
+/-! ## the encoder's output has no NUL and does not start with `<?xml` -/
+
+theorem escapeByte_nulfree (c : UInt8) (h : c ≠ 0) : ∀ x ∈ escapeByte c, x ≠ 0 := by
+  unfold escapeByte
+  repeat' split
+  all_goals
+    intro x hx
+    simp only [List.mem_cons, List.not_mem_nil, or_false] at hx
+    first
+    | (rcases hx with rfl | rfl | rfl | rfl | rfl | rfl <;> decide)
+    | (rcases hx with rfl | rfl | rfl | rfl | rfl <;> decide)
+    | (rcases hx with rfl | rfl | rfl | rfl <;> decide)
+    | (subst hx; exact h)
+
+theorem mem_takeWhile_ne0 (s : Bytes) : ∀ x ∈ s.takeWhile (· != 0), x ≠ 0 := by
+  induction s with
+  | nil => intro x hx; simp at hx
+  | cons a t ih =>
+    intro x hx
+    simp only [List.takeWhile_cons] at hx
+    split at hx
+    · rename_i ha
+      simp only [List.mem_cons] at hx
+      rcases hx with rfl | hx
+      · simpa using ha
+      · exact ih x hx
+    · simp at hx
+
+theorem escape_nulfree (s : Bytes) : NulFree (escape s) := by
+  intro x hx
+  unfold escape at hx
+  rw [List.mem_flatMap] at hx
+  obtain ⟨c, hc, hx⟩ := hx
+  exact escapeByte_nulfree c (mem_takeWhile_ne0 s c hc) x hx
+
+theorem nameOK_nulfree (n : Bytes) (h : NameOK n) : NulFree n := by
+  cases n with
+  | nil => exact h.elim
+  | cons t0 ts =>
+    intro ch hch
+    simp only [List.mem_cons] at hch
+    rcases hch with rfl | hch
+    · exact (nameStart_facts _ h.1).2.2.2.2.2.1
+    · exact (nameChar_facts _ (h.2 ch hch)).2.2.2.2
+
+theorem nulfree_append {a b : Bytes} (ha : NulFree a) (hb : NulFree b) : NulFree (a ++ b) := by
+  intro x hx
+  rw [List.mem_append] at hx
+  rcases hx with h | h
+  · exact ha x h
+  · exact hb x h
+
+theorem encAttrs_nulfree (attrs : List (Bytes × Bytes)) (h : ∀ kv ∈ attrs, NameOK kv.1 ∧ NulFree kv.2) :
+    NulFree (encAttrs attrs) := by
+  induction attrs with
+  | nil => intro x hx; simp [encAttrs] at hx
+  | cons kv rest ih =>
+    obtain ⟨k, v⟩ := kv
+    simp only [encAttrs]
+    have hk := nameOK_nulfree k (h (k, v) (by simp)).1
+    refine nulfree_append (nulfree_append (nulfree_append (nulfree_append (nulfree_append ?_ hk) ?_) (escape_nulfree v)) ?_)
+      (ih (fun kv hkv => h kv (by simp [hkv])))
+    · intro x hx; simp at hx; subst hx; decide
+    · intro x hx; simp at hx; rcases hx with rfl | rfl <;> decide
+    · intro x hx; simp at hx; subst hx; decide
+
+theorem tabs_nulfree (n : Nat) : NulFree (tabs n) := by
+  intro x hx
+  simp only [tabs, List.mem_replicate] at hx
+  rw [hx.2]; decide
+
+theorem lit_nulfree (l : Bytes) (h : l.all (· != 0) = true) : NulFree l := by
+  intro x hx
+  have := List.all_eq_true.mp h x hx
+  simpa using this
+
+mutual
+theorem encodeAt_nulfree (fmt : Bool) (lvl : Nat) : ∀ (t : Tree), ValidTree t → NulFree (encodeAt fmt lvl t)
+  | .text s, _ => by simpa [encodeAt] using escape_nulfree s
+  | .elem tag attrs cs, ht => by
+    obtain ⟨htag, hattrs, hcs⟩ := ht
+    have h1 := nameOK_nulfree tag htag
+    have h2 := encAttrs_nulfree attrs hattrs.1
+    have h3 := encodeList_nulfree fmt (lvl + 1) cs hcs
+    have h4 := tabs_nulfree lvl
+    unfold encodeAt
+    simp only
+    split
+    · intro x hx; simp at hx
+    · split
+      all_goals
+        repeat' apply nulfree_append
+        all_goals
+          first
+          | assumption
+          | exact lit_nulfree _ (by decide)
+          | (split <;> first | assumption | exact lit_nulfree _ (by decide))
+theorem encodeList_nulfree (fmt : Bool) (lvl : Nat) : ∀ (ts : List Tree), ValidList ts → NulFree (encodeList fmt lvl ts)
+  | [], _ => by intro x hx; simp [encodeList] at hx
+  | t :: ts, ht => by
+    simp only [encodeList]
+    exact nulfree_append (encodeAt_nulfree fmt lvl t ht.1) (encodeList_nulfree fmt lvl ts ht.2)
+end
+
+theorem sh_init : Sh init .free .free [] [([], [], [])] := ⟨rfl, rfl, rfl, rfl⟩
+
+theorem eraseList_singleton (l : List Node) (t : Tree) (h : eraseList l = [t]) : ∃ n, l = [n] ∧ n.erase = t := by
+  match l, h with
+  | [n], h => simp only [eraseList, List.cons.injEq, and_true] at h; exact ⟨n, rfl, h⟩
+  | [], h => simp [eraseList] at h
+  | _ :: _ :: _, h => simp [eraseList] at h
+
+/-- `finish` on a configuration whose only frame is the root with exactly one child -/
+theorem finish_single (c : Cfg) (st last : St) (b : Bytes) (t : Tree) (h : Sh c st last b [([], [], [t])]) :
+    ∃ n, finish c = .node n ∧ n.erase = t := by
+  have hs := h.s
+  unfold astack at hs
+  match hst : c.stack, hs with
+  | [f], hs =>
+    simp only [List.map_cons, List.map_nil, List.cons.injEq, and_true, fabs, Prod.mk.injEq] at hs
+    obtain ⟨n, hn, he⟩ := eraseList_singleton _ _ hs.2.2
+    exact ⟨n, by simp [finish, hst, hn], he⟩
+  | [], hs => simp at hs
+  | _ :: _ :: _, hs => simp at hs
+
+theorem body_of_elem (fmt : Bool) (tag : Bytes) (attrs : List (Bytes × Bytes)) (cs : List Tree) (ht : NameOK tag) :
+    body (encodeAt fmt 0 (.elem tag attrs cs)) = encodeAt fmt 0 (.elem tag attrs cs) := by
+  cases tag with
+  | nil => exact ht.elim
+  | cons t0 ts =>
+    have h63 : t0 ≠ 63 := (nameStart_facts _ ht.1).2.2.2.1
+    have h63' : (63 == t0) = false := by simp [Ne.symm h63]
+    unfold body
+    have : xmlDeclPrefix.isPrefixOf (encodeAt fmt 0 (.elem (t0 :: ts) attrs cs)) = false := by
+      unfold encodeAt
+      simp only [List.isEmpty_cons, Bool.false_eq_true, if_false, tabs, List.replicate_zero, ite_self, List.nil_append]
+      split <;> simp [xmlDeclPrefix, List.isPrefixOf, h63']
+    simp [this]
+
+theorem decode_of_feed (x : Bytes) (c' : Cfg) (hx : NulFree x) (hne : x.isEmpty = false) (hb : body x = x)
+    (hf : feed true init x = .cont c') : decode x = finish c' := by
+  unfold decode decodeG
+  simp only
+  rw [takeWhile_nulfree x hx, hne, hb]
+  simp only [Bool.false_eq_true, if_false]
+  have := run_append_cont hf []
+  simpa [run] using this
+
+/-- decoding the compact encoding of a valid element tree rebuilds `normOp` of it -/
+theorem decode_encode_compact (tag : Bytes) (attrs : List (Bytes × Bytes)) (cs : List Tree)
+    (ht : ValidTree (.elem tag attrs cs)) :
+    ∃ n, decode (encode false (.elem tag attrs cs)) = .node n ∧ n.erase = normOp (.elem tag attrs cs) := by
+  obtain ⟨c', hf, hs⟩ := feed_tree_c 0 (.elem tag attrs cs) ht init [] ([], [], []) [] sh_init
+  have hne : (encode false (.elem tag attrs cs)).isEmpty = false := by
+    have := nameOK_ne_nil tag ht.1
+    unfold encode encodeAt
+    simp only [this, Bool.false_eq_true, if_false]
+    split <;> simp
+  have hd := decode_of_feed _ c' (encodeAt_nulfree false 0 _ ht) hne (body_of_elem false tag attrs cs ht.1) hf
+  unfold encode
+  rw [hd]
+  have hs' : Sh c' .free .free [] [([], [], [normOp (.elem tag attrs cs)])] := by
+    simpa [absorbL, flushK] using hs
+  exact finish_single c' _ _ _ _ hs'
+
 end AslProofs.Xml
